@@ -5,7 +5,8 @@ A history is a list of tokens
     R:<slot>:<out|->:<code>:<cmd>:<cc>:<nohead>:<nocache>:<dur>     one compiler invocation
     I:<same fields>                             same, but a build (if any) is killed leaving an empty file
     C:<same fields>                             nelua --code: only <cache>/<slot>.c is (re)generated
-(the <dur> field of the *input* history is ignored: the real duration is observed).
+(the whole seconds of the <dur> field of the *input* history are imposed as "the build took that much
+longer": every other file is aged by that many seconds right after the build; the rest is observed).
 
 Time.  Invocations run in real time.  `A:d` sleeps the fractional part of d and imposes the
 whole seconds by shifting the mtime of every file of the scratch cache/output directories back
@@ -193,6 +194,18 @@ class Replayer:
         kill = s["k"] == "I"
         rc, out, err = self.nelua(self.args_of(s, self.cache, outp), sdir, kill=kill)
         after = (self._stat(cfile), self._stat(binp))
+        slow = s.get("dur", 0) // TPS
+        if slow and after[1] is not None and after[1] != before[1]:
+            # a build that took `slow` seconds longer: age everything but the file it just wrote
+            for d in (self.cache, self.outd):
+                for f in os.listdir(d):
+                    pth = os.path.join(d, f)
+                    if pth != binp:
+                        st = os.stat(pth)
+                        os.utime(pth, ns=(st.st_atime_ns - slow * 10**9, st.st_mtime_ns - slow * 10**9))
+            self.shift += slow
+            before = (None if before[0] is None else (before[0][0] - slow * 10**9, before[0][1]), before[1])
+            after = (self._stat(cfile), self._stat(binp))
         g = "using cached generated " in out
         b = "using cached binary " in out
         prog_out = out
